@@ -2373,6 +2373,8 @@ pub struct VerifRegistrySnapshot {
     /// bridge per-source state sorted by source SSRC:
     /// (src_ssrc, out_ssrc, next_sequence_number, last_source_timestamp, timestamp_offset)
     pub bridge_streams: Vec<(u32, u32, u16, Option<u32>, u32)>,
+    /// size of `by_ssrc` at which the next packet-learnt binding sweeps closed senders
+    pub ssrc_sweep_at: usize,
 }
 
 #[cfg(rustrtc_verif)]
@@ -2389,6 +2391,7 @@ impl RtpTransport {
         let mut snap = VerifRegistrySnapshot::default();
         {
             let listeners = self.listeners.lock();
+            snap.ssrc_sweep_at = listeners.ssrc_sweep_at;
             snap.by_ssrc = listeners.by_ssrc.iter().map(|(k, v)| (*k, idx(v))).collect();
             snap.by_ssrc.sort();
             snap.by_rid = listeners
